@@ -866,11 +866,16 @@ def correspond(ctx):
             ctx.hist("ecdh.result", t["val"] if t["res"] == "err" else "ok")
     dis = c.run()
     # a failure may be filed under K2 only if the model (which reproduces K2) agrees with the implementation on that history
-    ctx._c05_dis = set(d["line"] for d in dis)
+    # (if the driver did not answer, agreement of the model is unknown: nothing is filed under K2 then)
+    ctx._c05_dis = None if _driver_failed(ctx) else set(d["line"] for d in dis)
+
+
+def _driver_failed(ctx):
+    return any(p.get("kind") == "correspondence" and str(p.get("what", "")).startswith("model driver") for p in ctx.problems)
 
 
 def search(ctx):
-    dis = getattr(ctx, "_c05_dis", set())
+    dis = getattr(ctx, "_c05_dis", None)
     runs = getattr(ctx, "_c05_runs", None)
     if runs is None:
         runs = []
@@ -890,7 +895,10 @@ def search(ctx):
                 # (a) structural predicate: checked in reference_check (cofactor != 1 and n*P has y = 0 / the product lands on
                 # the point of order 2); (b) the model gives the implementation's answers on this very history
                 line, _, _ = (run.line_cache if hasattr(run, "line_cache") else (None, None, None))
-                if line is not None and line in dis:
+                if dis is None or line is None:
+                    rec["note"] = ("2-torsion involved, but agreement of the model on this history could not be established "
+                                   "(the correspondence stage did not run or the driver failed): not filed under K2")
+                elif line in dis:
                     rec["note"] = "2-torsion involved, but model and implementation disagree on this history: not filed under K2"
                 else:
                     rec["known"] = bad["known"]
@@ -918,7 +926,13 @@ def search(ctx):
 
 
 def replay(rec):
-    i = rec["input"]
+    """True: still fails; False: passes now; None / an exception: the record cannot be re-run (harness/check exits 2)"""
+    i = rec.get("input")
+    if not isinstance(i, dict):
+        return None
+    shape = lambda h: isinstance(h, dict) and all(k in h for k in ("curves", "init", "ops"))   # noqa: E731
+    if not (shape(i) or ("A" in i and "B" in i and shape(i["A"]) and shape(i["B"]))):
+        return None
     if "A" in i:
         outs = []
         for h in (i["A"], i["B"]):
